@@ -795,8 +795,8 @@ func addC08Janitor(e *Env, cf *CaseFile) {
 // entry, on the real clock. Sequentially either the cleanup comes first (the entry is gone: both reads miss)
 // or ExpireAll comes first (the entry expires "now", which is not long ago: the cleanup keeps it and both
 // reads find it). The pattern "first Read finds the entry expired just now, second Read finds nothing" has no
-// linearization: the cleanup decided on the old expiry and removed the re-stamped entry. This is known
-// finding K1 for SyncMap (known_findings.json); it must never show on the sharded backends.
+// linearization: the cleanup decided on the old expiry and removed the re-stamped entry. This was known
+// finding K1 for SyncMap, repaired as D17 (known_findings.json); it must never show on any backend.
 func addC08StaleDecision(e *Env, cf *CaseFile) {
 	budget := time.Duration(e.Pick(6000, 30000)) * time.Millisecond
 
@@ -811,9 +811,7 @@ func addC08StaleDecision(e *Env, cf *CaseFile) {
 		hits, n := 0, 0
 		deadline := time.Now().Add(budget)
 
-		if fl != FlSyncM {
-			deadline = time.Now().Add(budget / 4)
-		}
+		deadline = time.Now().Add(budget / 4) // since the repair of D17 (formerly known finding K1) no backend may show the pattern
 
 		for time.Now().Before(deadline) && hits == 0 {
 			_ = b.Write(old, k, 1)
